@@ -55,6 +55,9 @@ Content(kind, f, t) ==
     \* an override under the old name that MEANS the deprecated default (the harness
     \* spells it differently from the default's own text): it governs like any other
     [] kind = "oldsame" -> [NoRules EXCEPT !["o"] = RolesB({"old"})]
+    \* an override under the old name that is a role check whose role is spelled like the NEW policy's
+    \* name (not the alias rule:<new>): it governs like any other
+    [] kind = "rolenew" -> [NoRules EXCEPT !["o"] = RolesB({"n"})]
 
 Init ==
   /\ fs = [f \in AllFiles |-> IF f = "main" /\ StartWithMain THEN [exists |-> TRUE, mtime |-> 1, content |-> Content("new", "main", 1)] ELSE Absent]
